@@ -101,8 +101,8 @@ Print Assumptions cliques_L1_exact.
 (** count_cliques (L1) on an undirected graph — symmetric pattern with duplicate-free rows — is the
     number of k-cliques for every k >= 2, whatever permutation np.argsort(core values) returns (the code
     passes that permutation as [order] to get_dag: node i gets key argsort[i]; any injective key works).
-    The in-place ListingBox kernel (L0, [count_cliques]) is tied to L1 by the correspondence run only:
-    the harness evaluates both on every case and requires equality. *)
+    The in-place ListingBox kernel (L0, [count_cliques]) refines L1: see count_cliques_L0_exact at the end
+    of this file (the harness still evaluates both on every case and requires equality). *)
 Theorem count_cliques_L1_exact (g : graph) (k : nat) (argsort : list nat) :
   wf_graph g -> (forall u, NoDup (row g u)) -> (forall u v, In v (row g u) -> In u (row g v)) ->
   NoDup argsort -> List.length argsort = List.length g -> 2 <= k ->
@@ -270,4 +270,107 @@ Example c11_nonvacuous_core_l0 :
   core_pop_sequence g = [4; 3; 0; 1; 2] /\
   peel g (core_pop_sequence g) = Some [2; 2; 2; 1; 1] /\
   compute_core g = Some (map Z.of_nat [2; 2; 2; 1; 1]).
+Proof. cbv zeta. repeat split; reflexivity. Qed.
+
+(** * cliques.pyx at the array level (L0), proved (Proofs/CliqueProofs.v).
+    These close the gap left open above ([count_cliques_L1_exact] is about the functional recursion; the
+    ListingBox kernel was tied to it by the correspondence run only). Vocabulary from Proofs/CliqueProofs.v:
+    [dag_wf d M]: the rows of the DAG d are duplicate-free, their entries are < length d, none is longer than M;
+    [shape d K M b]: array lengths (ns, degrees, subs: K+1; lab, every degrees[m], the row table: n;
+      subs[m] for m < K: at least M);
+    [subl b l] := the first ns[l] entries of sub[l] (the node list of level l);
+    [inv d K M l b]: the level invariant, spelled out by [clique_level_invariant_meaning] below;
+    [frame d K M l b b']: b' differs from b at most below level l (ns[m], sub[m], deg[m] unchanged for m >= l),
+      no label differs, and row v differs only by a permutation of its first deg[l][v] entries, for v in [subl b l];
+    [sel_run l b u], [part_run l b1]: the first two inner loops of count_cliques_from_dag for clique_size = l+1
+      (selection of the neighbours of u, in-place partition of the windows of the selected nodes);
+    [ccfd_ok cs b]: count_cliques_from_dag instrumented with the bounds check of EVERY array access it makes
+      (ns[.], lab[.], degrees[.][.], subs[.][.], indptr[.], indices[.] relative to the row), [true] when all pass. *)
+From SKN Require Import Proofs.CliqueProofs.
+(** (keep a comment line after the import: dependency scan of the harness) *)
+
+(** The level invariant, in full: at level l with S = sub[l][0 : ns[l]] — S is duplicate-free; every v in S is a
+    node with lab[v] = l, every other node has a larger label; every row of the (mutable) indices array is a
+    permutation of the original row of the DAG; and for v in S the first deg[l][v] entries of row v are, as a
+    set, N+(v) /\ S. *)
+Theorem clique_level_invariant_meaning (d : graph) (K M l : nat) (b : box) :
+  inv d K M l b ->
+  let S0 := firstn (nthn (b_ns b) l) (nthl (b_sub b) l) in
+  2 <= l <= K /\ nthn (b_ns b) l <= List.length (nthl (b_sub b) l) /\ NoDup S0 /\
+  (forall v, In v S0 -> v < List.length d /\ nthn (b_lab b) v = l) /\
+  (forall v, v < List.length d -> ~ In v S0 -> l < nthn (b_lab b) v) /\
+  (forall v, Permutation (nthl (b_rows b) v) (row d v)) /\
+  (forall v, In v S0 ->
+     get_deg b l v <= List.length (nthl (b_rows b) v) /\
+     forall w, In w (firstn (get_deg b l v) (nthl (b_rows b) v)) <-> In w (row d v) /\ In w S0).
+Proof. exact (CliqueProofs.inv_meaning d K M l b). Qed.
+Print Assumptions clique_level_invariant_meaning.
+
+(** ListingBox.__cinit__ establishes the invariant at level k (all nodes, lab = k, degrees = out-degrees). *)
+Theorem clique_level_invariant_init (d : graph) (K : nat) :
+  dag_wf d (max_deg d) -> 2 <= K -> inv d K (max_deg d) K (box_init d K).
+Proof. exact (CliqueProofs.inv_init d K). Qed.
+Print Assumptions clique_level_invariant_init.
+
+(** One level step: for the i-th node u of level l+1, after the selection loop and the partition loop the
+    recursive call is entered in a state satisfying the invariant of level l, whose node list is, up to
+    order, N+(u) /\ S. *)
+Theorem clique_level_step_invariant (d : graph) (K M l : nat) (b : box) (i : nat) :
+  dag_wf d M -> 2 <= l -> inv d K M (S l) b -> i < nthn (b_ns b) (S l) ->
+  let u := get_sub b (S l) i in
+  let b3 := part_run l (sel_run l b u) in
+  inv d K M l b3 /\ Permutation (subl b3 l) (inter (row d u) (subl b (S l))).
+Proof. exact (CliqueProofs.level_step_establishes_inv d K M l b i). Qed.
+Print Assumptions clique_level_step_invariant.
+
+(** On return from a call at level l (labels restored by the last inner loop of every iteration) the state
+    differs from the entry state only as [frame] allows, hence the invariant of level l holds again. *)
+Theorem clique_level_invariant_preserved (d : graph) (K M l : nat) (b : box) :
+  dag_wf d M -> inv d K M l b ->
+  frame d K M l b (snd (count_cliques_from_dag l b)) /\ inv d K M l (snd (count_cliques_from_dag l b)).
+Proof. exact (CliqueProofs.count_cliques_from_dag_inv d K M l b). Qed.
+Print Assumptions clique_level_invariant_preserved.
+
+(** Refinement L0 -> L1: under the invariant, the count returned by the array-level kernel at level l is the
+    L1 recursion on the current node list. *)
+Theorem count_cliques_L0_refines_L1 (d : graph) (K M l : nat) (b : box) :
+  dag_wf d M -> inv d K M l b ->
+  fst (count_cliques_from_dag l b) = cliques_rec d (l - 2) (subl b l).
+Proof. exact (CliqueProofs.count_cliques_L0_refines_L1 d K M l b). Qed.
+Print Assumptions count_cliques_L0_refines_L1.
+
+(** Hence count_cliques as coded (core-order argsort permutation, get_dag, ListingBox, in-place kernel)
+    returns the number of k-cliques, for every k >= 2: same hypotheses as [count_cliques_L1_exact]. *)
+Theorem count_cliques_L0_exact (g : graph) (k : nat) (argsort : list nat) :
+  wf_graph g -> (forall u, NoDup (row g u)) -> (forall u v, In v (row g u) -> In u (row g v)) ->
+  NoDup argsort -> List.length argsort = List.length g -> 2 <= k ->
+  count_cliques g k argsort = Ok (cliques_spec (adjb g) (List.length g) k).
+Proof. exact (CliqueProofs.count_cliques_L0_exact g k argsort). Qed.
+Print Assumptions count_cliques_L0_exact.
+
+(** Safety (used by C17): under the invariant every array access of the kernel is in range, ... *)
+Theorem count_cliques_from_dag_safe (d : graph) (K M l : nat) (b : box) :
+  dag_wf d M -> inv d K M l b -> ccfd_ok l b = true.
+Proof. exact (CliqueProofs.count_cliques_from_dag_safe d K M l b). Qed.
+Print Assumptions count_cliques_from_dag_safe.
+
+(** ... in particular on the box and DAG count_cliques builds from an undirected graph. *)
+Theorem count_cliques_safe (g : graph) (k : nat) (argsort : list nat) :
+  wf_graph g -> (forall u, NoDup (row g u)) -> (forall u v, In v (row g u) -> In u (row g v)) ->
+  NoDup argsort -> List.length argsort = List.length g -> 2 <= k ->
+  ccfd_ok k (box_init (get_dag g (map Z.of_nat argsort)) k) = true.
+Proof. exact (CliqueProofs.count_cliques_safe g k argsort). Qed.
+Print Assumptions count_cliques_safe.
+
+(** Non-vacuity: on the 5-node graph above (hypotheses shown in c11_nonvacuous_cliques) and on K4 plus a
+    pendant node with k = 4 (two nested levels) the kernel runs, every check passes, and the instrumentation
+    does detect an out-of-range column index. *)
+Example c11_nonvacuous_cliques_l0 :
+  let g := [[1; 2]; [0; 2]; [0; 1; 3]; [2; 4]; [3]] in
+  let g4 := [[1; 2; 3]; [0; 2; 3]; [0; 1; 3; 4]; [0; 1; 2]; [2]] in
+  count_cliques g 3 [4; 3; 0; 1; 2] = Ok 1 /\
+  ccfd_ok 3 (box_init (get_dag g (map Z.of_nat [4; 3; 0; 1; 2])) 3) = true /\
+  count_cliques g4 4 [1; 2; 3; 4; 0] = Ok 1 /\ count_cliques g4 3 [1; 2; 3; 4; 0] = Ok 4 /\
+  ccfd_ok 4 (box_init (get_dag g4 (map Z.of_nat [1; 2; 3; 4; 0])) 4) = true /\
+  ccfd_ok 3 (box_init [[1; 7]; []; []] 3) = false.
 Proof. cbv zeta. repeat split; reflexivity. Qed.
